@@ -280,6 +280,10 @@ def run_case(ctx, repo, case):
             repo.dur(case["d"]) + repo.Duration(days=3, hours=5)
             repo.Duration(hours=1) - repo.dur(case["d"])
             ctx.ev("bystander-week-sum")
+        if case.get("zero") == "w-w":
+            d = repo.Duration(weeks=2) - repo.Duration(weeks=2)
+        elif case.get("zero") == "mul0":
+            d = repo.Duration(days=3, hours=5) * 0
         op = case["op"]
         if op == "add":
             p + d
@@ -314,6 +318,17 @@ SWEEP_DURS = gen.EXACT_DUR_POOL + [
     {"days": 36524}, {"days": -36525}, {"days": 146097}, {"days": -146097}]
 
 
+ZERO_DURS = [({}, None), ({"days": 0}, None), ({"weeks": 0}, None),
+             ({"hours": 0, "seconds": 0.0}, None), ({}, "w-w"),
+             ({}, "mul0"), ({"days": 1, "hours": -24}, None)]
+ZERO_TIMES = [{"hour_of_day": 24},
+              {"hour_of_day": 24, "minute_of_hour": 0},
+              {"hour_of_day": 24, "minute_of_hour": 0, "second_of_minute": 0},
+              {"hour_of_day": 23, "minute_of_hour": 59,
+               "second_of_minute": 59},
+              {"hour_of_day": 0}]
+
+
 def workload(ctx, repo):
     rng = ctx.rng
     stride = 3 if ctx.tier == "quick" else 1
@@ -336,6 +351,29 @@ def workload(ctx, repo):
                                 "mode": mode, "p": kw, "d": dkw}
                         ctx.case = case
                         ctx.ev("cases.sweep")
+                        run_case(ctx, repo, case)
+    # durations of no length at all, in several spellings, on points at the
+    # ends of days, months and years (24:00 spellings included): nothing may
+    # move, and nothing may be left half-carried
+    i = 0
+    for mode in R.MODES:
+        for y in (2001, 2004):
+            for rd in gen.boundary_rds(mode, y):
+                for rep in gen.REPS:
+                    for zi, (dkw, zero) in enumerate(ZERO_DURS):
+                        i += 1
+                        if not ctx.mine(i):
+                            continue
+                        kw = gen.date_kwargs(mode, rep, rd)
+                        kw.update(ZERO_TIMES[(i // 2) % len(ZERO_TIMES)])
+                        kw.update(gen.zone_kwargs(
+                            SWEEP_OFFSETS[(i // 5) % len(SWEEP_OFFSETS)]))
+                        case = {"op": ("add", "sub", "radd")[i % 3],
+                                "mode": mode, "p": kw, "d": dkw}
+                        if zero:
+                            case["zero"] = zero
+                        ctx.case = case
+                        ctx.ev("cases.zero-length")
                         run_case(ctx, repo, case)
     # unit counts given as True (an int that is not the object 1)
     if ctx.worker == 0:
